@@ -25,6 +25,9 @@ type StageIO struct {
 	CheckFile func(path string)
 	// TempPath is the job's temporary directory (real runs).
 	TempPath string
+	// RealPath, when set, makes FILEW report its files by their physical
+	// path (all symlinks resolved), as a stage using realpath() would.
+	RealPath func(path string) string
 }
 
 // FileContent is what FILEW writes into the file at path p: self-describing,
@@ -67,6 +70,9 @@ func filewValue(p *Program, io *StageIO, t *T, n int64, dir, tag string, pad *in
 		*pad += 13
 		if io.WriteFile != nil {
 			io.WriteFile(pth, FileContent(pth, *pad))
+		}
+		if io.RealPath != nil {
+			pth = io.RealPath(pth)
 		}
 		return Str(pth)
 	}
@@ -243,6 +249,9 @@ func Exec(p *Program, io *StageIO) (*StageResult, error) {
 						io.WriteFile(tv.S, FileContent(tv.S, pad))
 					}
 					outs[o.Name] = Str(tv.S)
+					if io.RealPath != nil {
+						outs[o.Name] = Str(io.RealPath(tv.S))
+					}
 					continue
 				}
 			}
